@@ -1,13 +1,15 @@
 (* C13, lazy mode: a source is advanced only on demand.
 
    lazy_fetch_only_on_demand (every network, every schedule): a lazy (gated) sender takes the next item from
-   its iterable only in a step that starts in a state where _can_fetch() is true: a driving subscriber is
-   waiting, and no subscriber is waiting for a message number <= the lowest buffered one.
-   For a mailbox with a single subscriber that is exactly "the driving subscriber waits for a message that
-   has not been produced, and the mailbox is empty".
-   With two or more subscribers the literal reading ("nobody waits for a message that is already in the
-   mailbox") is FALSE for the code as it is: _can_fetch compares with the lowest buffered number only.
-   lazy_fetch_strong_refuted exhibits the schedule (replayed on the real code by harness/props/c13.py). *)
+   its iterable only in a step of its fetch gate that starts in a state where _can_fetch() is true.
+   With the gate as repaired by /repo ede7cda (Model/Mailbox.v can_fetch) that means, for every mailbox:
+   some DRIVING subscriber waits for a message that has not been produced (its number is >= _n_sent), and
+   no subscriber waits for a message that is already in the mailbox (lazy_fetch_only_on_demand_full).
+
+   The gate as it was before ede7cda (can_fetch_pinned: compare with the LOWEST buffered number) lets the
+   sender pass in a reachable state in which a driving subscriber waits for a buffered message whenever a
+   second, slower subscriber keeps older messages in the mailbox: lazy_gate_pinned_refuted (finding F1; the
+   schedule is replayed on the real code by harness/props/c13.py on every run: a revert is a VIOLATION). *)
 From SV Require Import Base.Prelude Model.Mailbox Model.MailboxNet Model.C13Run
   Proof.MailboxFacts Proof.MailboxProof Proof.MailboxInOrder Proof.MailboxNetLift Proof.MailboxStepFacts
   Proof.MailboxNetFlow Proof.MailboxNetBound.
@@ -50,113 +52,86 @@ Qed.
 Lemma can_fetch_spec st :
   killed st = false -> can_fetch st = true ->
   (exists i r x, nth_error (rds st) i = Some r /\ r_drive r = true /\ r_waiting r = Some x) /\
-  (forall lo m t, box st = (lo, m) :: t ->
-     forall i r x, nth_error (rds st) i = Some r -> r_waiting r = Some x -> lo < x).
+  (forall i r x, nth_error (rds st) i = Some r -> r_waiting r = Some x -> has_msg (box st) x = false).
 Proof.
   intros Hk Hc. unfold can_fetch in Hc. rewrite Hk in Hc.
-  assert (Hd : existsb drives (rds st) = true).
-  { destruct (box st) as [|[lo m] t]; auto. destruct (existsb (waits_le lo) (rds st)); [discriminate|auto]. }
-  split.
-  - apply existsb_nth in Hd. destruct Hd as (i & r & Hi & Hr). unfold drives in Hr.
-    apply andb_true_iff in Hr. destruct Hr as [H1 H2]. destruct (r_waiting r) as [x|] eqn:E; [|discriminate]. eauto 8.
-  - intros lo m t Hb i r x Hi Hw. rewrite Hb in Hc.
-    destruct (existsb (waits_le lo) (rds st)) eqn:E; [discriminate|].
-    destruct (Nat.lt_ge_cases lo x) as [|Hge]; auto. exfalso.
-    assert (existsb (waits_le lo) (rds st) = true); [|congruence].
+  destruct (existsb (waits_buffered st) (rds st)) eqn:E; [discriminate|]. split.
+  - apply existsb_nth in Hc. destruct Hc as (i & r & Hi & Hr). unfold drives in Hr.
+    apply andb_true_iff in Hr. destruct Hr as [H1 H2]. destruct (r_waiting r) as [x|] eqn:Ew; [|discriminate]. eauto 8.
+  - intros i r x Hi Hw. destruct (has_msg (box st) x) eqn:Eh; auto. exfalso.
+    assert (existsb (waits_buffered st) (rds st) = true); [|congruence].
     apply existsb_exists. exists r. split; [eapply nth_error_In; eauto|].
-    unfold waits_le. rewrite Hw. apply Nat.leb_le. exact Hge.
+    unfold waits_buffered. rewrite Hw. exact Eh.
 Qed.
 
-(* in a network without failures: the explicit form *)
-Theorem lazy_fetch_demand_explicit N n0 sched n w n' :
+(* the property as worded, for every mailbox of every network without failures, every schedule *)
+Theorem lazy_fetch_only_on_demand_full N n0 sched n w n' :
   all_boxes (J N) (n_boxes n0) -> nrun n0 sched = Some n -> nstep n w = Some n' ->
   forall d cfg st st',
     nth_error (n_boxes n) d = Some (cfg, st) -> nth_error (n_boxes n') d = Some (cfg, st') ->
     c_lazy cfg = true -> length (src st') < length (src st) ->
-    (exists i r x, nth_error (rds st) i = Some r /\ r_drive r = true /\ r_waiting r = Some x) /\
-    (forall lo m t, box st = (lo, m) :: t ->
-       forall i r x, nth_error (rds st) i = Some r -> r_waiting r = Some x -> lo < x).
+    (exists i r x, nth_error (rds st) i = Some r /\ r_drive r = true /\ r_waiting r = Some x /\ n_sent st <= x) /\
+    (forall i r x, nth_error (rds st) i = Some r -> r_waiting r = Some x ->
+       has_msg (box st) x = false /\ n_sent st <= x).
 Proof.
   intros H0 Hrun Hs d cfg st st' Hd Hd' Hl Hlt.
   destruct (lazy_fetch_only_on_demand _ _ _ _ _ Hrun Hs _ _ _ _ Hd Hd' Hl Hlt) as [_ Hc].
-  assert (HJ : all_boxes (J N) (n_boxes n)) by (eapply lift; eauto using J_step).
-  apply can_fetch_spec; auto. apply (J_not_killed _ _ _ (HJ _ _ _ Hd)).
-Qed.
-
-(* a mailbox with one subscriber: the advance happens while that (driving) subscriber waits for the very
-   next message, which has not been sent, and the mailbox is empty *)
-Theorem lazy_fetch_single_subscriber N n0 sched n w n' :
-  all_boxes (J N) (n_boxes n0) -> nrun n0 sched = Some n -> nstep n w = Some n' ->
-  forall d cfg st st' r,
-    nth_error (n_boxes n) d = Some (cfg, st) -> nth_error (n_boxes n') d = Some (cfg, st') ->
-    c_lazy cfg = true -> length (src st') < length (src st) -> rds st = [r] ->
-    r_drive r = true /\ r_waiting r = Some (n_sent st) /\ box st = [] /\
-    forall x, r_waiting r = Some x -> has_msg (box st) x = false.
-Proof.
-  intros H0 Hrun Hs d cfg st st' r Hd Hd' Hl Hlt Hr.
-  destruct (lazy_fetch_demand_explicit N _ _ _ _ _ H0 Hrun Hs _ _ _ _ Hd Hd' Hl Hlt) as [(i & r0 & x & Hi & Hdr & Hw) Hlo].
   assert (HJ : J N cfg st) by (eapply (lift (J N) n0 sched n); eauto using J_step).
-  rewrite Hr in Hi. destruct i as [|i]; [|destruct i; discriminate]. cbn in Hi. inversion Hi; subst r0.
-  pose proof (J_MB _ _ _ HJ) as HM. pose proof HM as (HB & _ & HR & _).
-  assert (Hr0 : nth_error (rds st) 0 = Some r) by (rewrite Hr; reflexivity).
-  destruct (HR _ _ Hr0) as [Hle Hpc].
-  assert (Hx : r_nread r = x).
-  { unfold pc_ok in Hpc. destruct (r_pc r); try (destruct Hpc as (_ & _ & Hn & _); congruence);
-      try (destruct Hpc as (_ & Hn & _); congruence).
-    destruct Hpc as (E1 & _ & E2 & _). congruence. }
-  assert (Hmin : min_nread (rds st) = x) by (rewrite Hr; cbn; exact Hx).
-  assert (Hbox : box st = []).
-  { destruct (box st) as [|[lo m] t] eqn:Eb; auto. exfalso.
-    pose proof (box_hd _ _ _ _ _ HM Eb) as Elo. specialize (Hlo _ _ _ eq_refl 0 r x Hr0 Hw). lia. }
-  pose proof (J_box_len _ _ _ HJ) as Hlen. rewrite Hbox in Hlen. cbn in Hlen.
-  pose proof (J_min_le_sent _ _ _ HJ).
-  repeat split; auto.
-  - rewrite Hw. f_equal. lia.
-  - intros y _. rewrite Hbox. reflexivity.
+  destruct (can_fetch_spec st (J_not_killed _ _ _ HJ) Hc) as [(i & r & x & Hi & Hdr & Hw) Hno].
+  assert (Hge : forall i r x, nth_error (rds st) i = Some r -> r_waiting r = Some x -> n_sent st <= x).
+  { intros i0 r0 x0 Hi0 Hw0. pose proof (Hno _ _ _ Hi0 Hw0) as Hh.
+    pose proof (J_MB _ _ _ HJ) as HM. rewrite (has_box _ _ _ HM) in Hh.
+    destruct HM as (_ & _ & HR & _). destruct (HR _ _ Hi0) as [_ Hpc].
+    assert (Hx : r_nread r0 = x0).
+    { unfold pc_ok in Hpc. destruct (r_pc r0); try (destruct Hpc as (_ & _ & Hn & _); congruence);
+        try (destruct Hpc as (_ & Hn & _); congruence).
+      destruct Hpc as (E1 & _ & E2 & _). congruence. }
+    pose proof (min_nread_le _ _ _ Hi0).
+    apply andb_false_iff in Hh. destruct Hh as [Hh|Hh].
+    - apply Nat.leb_gt in Hh. lia.
+    - apply Nat.ltb_ge in Hh. exact Hh. }
+  split.
+  - exists i, r, x. repeat split; eauto.
+  - intros i0 r0 x0 Hi0 Hw0. split; eauto.
 Qed.
 
-(* ---------- the literal reading fails with a second, slower subscriber ---------- *)
+(* ---------- the gate as it was before ede7cda ---------- *)
 (* source d0 -> plugin d1, one saver on d0 (it does not drive in lazy mode), max_messages 3, the consumer
-   takes 2 chunks; threads: 0 build:d1, 1 build:d0, 2 save_0:d0, 3 consumer.  The saver never runs. *)
+   takes 2 chunks; threads: 0 build:d1, 1 build:d0, 2 save_0:d0, 3 consumer.  The saver never runs.  After
+   this schedule build:d0 is at its fetch gate again, chunks 0 and 1 are in the mailbox (the saver has read
+   nothing), and build:d1 has been notified of chunk 1 but has not run yet. *)
 Definition f1_comps : comps :=
   mkComps [(1, 0); (0, 1)] [mkPlugin [1] [0] None; mkPlugin [0] [] None] [] [(0, 1)] 1.
 Definition f1_opts : popts := mkOpts true true 3.
 Definition f1_net0 : net := net_of (wire f1_comps f1_opts 2) 12.
 Definition f1_sched : list nat := [1; 0; 3; 0; 0; 1; 1; 1; 0; 0; 0; 3; 3; 0; 0; 1; 1].
 Definition f1_n : net := match nrun f1_net0 f1_sched with Some n => n | None => f1_net0 end.
-Definition f1_n' : net := match nstep f1_n 1 with Some n => n | None => f1_n end.
 Definition box0 (n : net) : config * state :=
   nth 0 (n_boxes n) (mkConfig None false, init (mkConfig None false) [] [] None 0).
 
-Definition strong_demand_violated (st : state) : bool := existsb (waits_present st) (rds st).
-
 Lemma f1_facts :
-  nrun f1_net0 f1_sched = Some f1_n /\ nstep f1_n 1 = Some f1_n' /\
-  nth_error (n_boxes f1_n) 0 = Some (box0 f1_n) /\ nth_error (n_boxes f1_n') 0 = Some (box0 f1_n') /\
-  fst (box0 f1_n') = fst (box0 f1_n) /\
-  c_lazy (fst (box0 f1_n)) = true /\
-  (length (src (snd (box0 f1_n'))) <? length (src (snd (box0 f1_n)))) = true /\
-  strong_demand_violated (snd (box0 f1_n)) = true /\
-  can_fetch (snd (box0 f1_n)) = true.
+  nrun f1_net0 f1_sched = Some f1_n /\
+  nth_error (n_boxes f1_n) 0 = Some (box0 f1_n) /\
+  c_lazy (fst (box0 f1_n)) = true /\ at_gate (s_pc (snd (box0 f1_n))) = true /\
+  can_fetch_pinned (snd (box0 f1_n)) = true /\ can_fetch (snd (box0 f1_n)) = false /\
+  existsb (fun r => r_drive r && waits_buffered (snd (box0 f1_n)) r) (rds (snd (box0 f1_n))) = true.
 Proof. vm_compute. repeat split; reflexivity. Qed.
 
-Global Opaque f1_n f1_n' f1_net0.
+Global Opaque f1_n f1_net0.
 
-Theorem lazy_fetch_strong_refuted :
-  exists (c : comps) (o : popts) (p N : nat) (sched : list nat) (w : nat) (n n' : net)
-         (cfg : config) (st st' : state),
-    nrun (net_of (wire c o p) N) sched = Some n /\ nstep n w = Some n' /\
-    nth_error (n_boxes n) 0 = Some (cfg, st) /\ nth_error (n_boxes n') 0 = Some (cfg, st') /\
-    c_lazy cfg = true /\ length (src st') < length (src st) /\
-    exists i r x, nth_error (rds st) i = Some r /\ r_waiting r = Some x /\ has_msg (box st) x = true.
+Theorem lazy_gate_pinned_refuted :
+  exists (c : comps) (o : popts) (p N : nat) (sched : list nat) (n : net) (cfg : config) (st : state),
+    nrun (net_of (wire c o p) N) sched = Some n /\ nth_error (n_boxes n) 0 = Some (cfg, st) /\
+    c_lazy cfg = true /\ at_gate (s_pc st) = true /\
+    can_fetch_pinned st = true /\ can_fetch st = false /\
+    exists i r x, nth_error (rds st) i = Some r /\ r_drive r = true /\ r_waiting r = Some x /\
+                  has_msg (box st) x = true.
 Proof.
-  destruct f1_facts as (A & B & C & D & E & F & G & H & _).
-  destruct (box0 f1_n) as [cfg st] eqn:E0. destruct (box0 f1_n') as [cfg' st'] eqn:E1.
-  cbn [fst snd] in E, F, G, H. subst cfg'.
-  exists f1_comps, f1_opts, 2, 12, f1_sched, 1, f1_n, f1_n', cfg, st, st'.
-  split; [exact A|]. split; [exact B|]. split; [exact C|]. split; [exact D|]. split; [exact F|].
-  split; [apply Nat.ltb_lt; exact G|].
-  unfold strong_demand_violated in H. apply existsb_nth in H. destruct H as (i & r & Hi & Hr).
-  unfold waits_present in Hr. destruct (r_waiting r) as [x|] eqn:Ew; [|discriminate].
+  destruct f1_facts as (A & B & C & D & E & F & G).
+  destruct (box0 f1_n) as [cfg st] eqn:E0. cbn [fst snd] in *.
+  exists f1_comps, f1_opts, 2, 12, f1_sched, f1_n, cfg, st.
+  split; [exact A|]. split; [exact B|]. split; [exact C|]. split; [exact D|]. split; [exact E|]. split; [exact F|].
+  apply existsb_nth in G. destruct G as (i & r & Hi & Hr). apply andb_true_iff in Hr. destruct Hr as [H1 H2].
+  unfold waits_buffered in H2. destruct (r_waiting r) as [x|] eqn:Ew; [|discriminate].
   exists i, r, x. auto.
 Qed.
